@@ -18,17 +18,24 @@ THETAS = {
         'frank': [-18.2, -10.0, -5.74, -3.0, -1.0, -0.1, -0.01, 0.01, 0.1, 1.0, 3.0, 5.74, 10.0, 18.2],
     },
     'thorough': {
-        'clayton': [1e-3, 0.01, 0.05, 0.1, 0.25, 0.5, 0.75, 1.0, 1.5, 2.0, 3.0, 4.0, 5.0, 6.0, 7.0, 8.0],
-        'gumbel': [1.0, 1.001, 1.01, 1.05, 1.1, 1.25, 1.5, 1.75, 2.0, 2.5, 3.0, 3.5, 4.0, 4.5, 4.9, 5.0],
+        'clayton': sorted({1e-3, 0.01, 0.05, 0.1, 0.25, 0.5, 0.75, 1.0, 1.5, 2.0, 3.0, 4.0, 5.0, 6.0, 7.0, 8.0} |
+                          {round(0.25 * i, 2) for i in range(1, 33)} | {0.02, 0.2, 0.35, 7.9, 7.99}),
+        'gumbel': sorted({1.0, 1.001, 1.01, 1.05, 1.1, 1.25, 1.5, 1.75, 2.0, 2.5, 3.0, 3.5, 4.0, 4.5, 4.9, 5.0} |
+                         {round(1 + 0.125 * i, 3) for i in range(1, 33)} | {1.0001, 1.02, 4.99}),
         'frank': sorted([s * t for s in (-1, 1) for t in
-                         (1e-3, 0.01, 0.05, 0.1, 0.5, 1.0, 2.0, 3.0, 4.0, 5.74, 7.0, 8.5, 10.0, 12.0,
-                          15.0, 18.2)]),
+                         (1e-3, 0.01, 0.05, 0.1, 0.25, 0.5, 0.75, 1.0, 1.5, 2.0, 2.5, 3.0, 3.5, 4.0, 5.0, 5.74, 6.5, 7.0,
+                          8.0, 8.5, 9.0, 10.0, 11.0, 12.0, 13.0, 14.0, 15.0, 16.0, 17.0, 18.0, 18.2)]),
     },
 }
 
 
+G81 = sorted(set(G41 + [round(0.0125 * i, 4) for i in range(1, 80)] + [1e-5 * 3, 1 - 3e-5, 2e-4, 1 - 2e-4, 5e-4, 1 - 5e-4,
+                                                                        0.0015, 0.9985, 0.0075, 0.9925, 0.015, 0.985]))
+G81 = [x for x in G81 if 1e-4 <= x <= 1 - 1e-4]
+
+
 def tier_grid(tier):
-    return G11 if tier == 'quick' else G41
+    return G11 if tier == 'quick' else G81
 
 
 # ------------------------------------------------------------------------------------------------
